@@ -258,24 +258,33 @@ func rotate(v []v2.Vec, a float64) []v2.Vec {
 
 func genPolys(rng *Rng, tier string) []poly {
 	var ps []poly
+	quick := tier == "quick"
+	k := 0
+	// both orientations; in the quick tier the clockwise copy of every other shape only
 	add := func(family, name string, v []v2.Vec, exact bool) {
 		ps = append(ps, poly{name: name, family: family, v: v, exact: exact})
-		ps = append(ps, poly{name: name + "/cw", family: family + "/cw", v: reverse(v), exact: exact})
+		k++
+		if !quick || k%2 == 0 {
+			ps = append(ps, poly{name: name + "/cw", family: family + "/cw", v: reverse(v), exact: exact})
+		}
 	}
 	reps := TierN(tier, 1, 8, 3)
 	for rep := 0; rep < reps; rep++ {
 		tag := fmt.Sprintf("#%d", rep)
-		// ---- stars (the family of the known defect), irrational and dyadic coordinates
+		// ---- stars (the family of the known defect), irrational, dyadic and far-offset coordinates
 		for _, n := range []int{5, 10, 7} {
 			R, r, rot := 1.0, 0.4, 0.0
-			if rep > 0 {
+			if rep > 0 || n == 7 {
 				R, r, rot = rng.Uniform(0.5, 20), rng.Uniform(0.2, 0.45), rng.Uniform(0, 1)
 				r *= R
 			}
 			s := star(n, R, r, rot)
-			add("star/irrational", fmt.Sprintf("star%d(R=%g,r=%g,rot=%g)", n, R, r, rot), s, false)
-			add("star/dyadic", fmt.Sprintf("star%d(R=%g,r=%g,rot=%g)/dy6", n, R, r, rot), roundDy(s, 6), false)
-			add("star/offset", fmt.Sprintf("star%d(R=%g,r=%g,rot=%g)+off", n, R, r, rot), xform(s, 1, rng.Uniform(-50, 50), rng.Uniform(100, 300)), false)
+			nm := fmt.Sprintf("star%d(R=%g,r=%g,rot=%g)", n, R, r, rot)
+			add("star/irrational", nm, s, false)
+			add("star/dyadic", nm+"/dy6", roundDy(s, 6), false)
+			if !quick || n == 10 {
+				add("star/offset", nm+"+off", xform(s, 1, rng.Uniform(-50, 50), rng.Uniform(100, 300)), false)
+			}
 		}
 		// ---- convex
 		nc := rng.Range(3, 12)
@@ -283,19 +292,21 @@ func genPolys(rng *Rng, tier string) []poly {
 		add("convex/regular-axis", fmt.Sprintf("regular%d-axis%s", 2*nc, tag), ngon(2*nc, func(int) float64 { return 2 }, 0), false)
 		add("convex/triangle", "triangle"+tag, []v2.Vec{{X: 0, Y: 0}, {X: rng.Dyadic(4, 3) + 5, Y: rng.Dyadic(2, 3)}, {X: rng.Dyadic(2, 3), Y: rng.Dyadic(4, 3) + 5}}, false)
 		// ---- rectilinear: dyadic and scaled by an irrational factor, collinear edges
-		for k := 0; k < 2; k++ {
+		for j := 0; j < TierN(tier, 1, 2, 2); j++ {
 			sk := skyline(rng, rng.Range(3, 9), 1)
-			add("rectilinear/dyadic", fmt.Sprintf("skyline%d%s", k, tag), xform(sk, 0.25, rng.Dyadic(8, 2), rng.Dyadic(8, 2)), true)
-			add("rectilinear/irrational", fmt.Sprintf("skyline%d%s*sqrt2", k, tag), xform(sk, math.Sqrt2/3, -math.Pi, math.E), true)
+			add("rectilinear/dyadic", fmt.Sprintf("skyline%d%s", j, tag), xform(sk, 0.25, rng.Dyadic(8, 2), rng.Dyadic(8, 2)), false)
+			add("rectilinear/irrational", fmt.Sprintf("skyline%d%s*sqrt2", j, tag), xform(sk, math.Sqrt2/3, -math.Pi, math.E), false)
 		}
+		// (fixed shapes none of whose vertices is within the clipping tolerance of a split line:
+		// the exact, tolerance 0, winding certificate must hold on their quadtrees)
 		add("rectilinear/square", "square"+tag, []v2.Vec{{X: -1, Y: -1}, {X: 1, Y: -1}, {X: 1, Y: 1}, {X: -1, Y: 1}}, true)
-		add("rectilinear/square-collinear", "square8"+tag, []v2.Vec{{X: -1, Y: -1}, {X: 0, Y: -1}, {X: 1, Y: -1}, {X: 1, Y: 0}, {X: 1, Y: 1}, {X: 0, Y: 1}, {X: -1, Y: 1}, {X: -1, Y: 0}}, true)
+		add("rectilinear/square-collinear", "square8"+tag, []v2.Vec{{X: -1, Y: -1}, {X: 0, Y: -1}, {X: 1, Y: -1}, {X: 1, Y: 0}, {X: 1, Y: 1}, {X: 0, Y: 1}, {X: -1, Y: 1}, {X: -1, Y: 0}}, false)
 		add("rectilinear/L", "L"+tag, []v2.Vec{{X: 0, Y: 0}, {X: 4, Y: 0}, {X: 4, Y: 1}, {X: 1, Y: 1}, {X: 1, Y: 3}, {X: 0, Y: 3}}, true)
 		// ---- combs
 		nt := rng.Range(3, 12)
-		add("comb/dyadic", fmt.Sprintf("comb%d%s", nt, tag), comb(nt, 0.5, 0.25, 3, 0.5), true)
+		add("comb/dyadic", fmt.Sprintf("comb%d%s", nt, tag), comb(nt, 0.5, 0.25, 3, 0.5), false)
 		add("comb/rotated", fmt.Sprintf("comb%d%s/rot", nt, tag), rotate(comb(nt, 0.3, 0.2, 2, 0.4), rng.Uniform(0.1, 1.4)), false)
-		add("comb/fine", fmt.Sprintf("comb%d%s/fine", 4*nt, tag), comb(4*nt, 0.01, 0.01, 1, 0.05), true)
+		add("comb/fine", fmt.Sprintf("comb%d%s/fine", 4*nt, tag), comb(4*nt, 0.01, 0.01, 1, 0.05), false)
 		// ---- thin
 		add("thin/sliver", "sliver"+tag, []v2.Vec{{X: 0, Y: 0}, {X: 10, Y: 0.001}, {X: 10, Y: 0.002}}, false)
 		add("thin/needle", "needle"+tag, rotate([]v2.Vec{{X: 0, Y: 0}, {X: 100, Y: 0}, {X: 100, Y: 0.01}, {X: 0, Y: 0.01}}, rng.Uniform(0.1, 1.4)), false)
@@ -305,8 +316,10 @@ func genPolys(rng *Rng, tier string) []poly {
 		ph := rng.Uniform(0, 6)
 		add("many/200gon", "gon200"+tag, ngon(n200, func(int) float64 { return 3 }, rng.Uniform(0, 0.01)), false)
 		add("many/200gon-wavy", "wavy200"+tag, ngon(n200, func(i int) float64 { return 3 + 0.5*math.Sin(ph+float64(i)*2*math.Pi*7/200) }, 0), false)
-		add("many/200gon-dyadic", "gon200dy"+tag, dedup(roundDy(ngon(n200, func(i int) float64 { return 5 + float64(i%3) }, 0), 5)), false)
-		// ---- vertices on / next to the split lines: symmetric shapes whose centre lines carry vertices
+		if !quick {
+			add("many/200gon-dyadic", "gon200dy"+tag, dedup(roundDy(ngon(n200, func(i int) float64 { return 5 + float64(i%3) }, 0), 5)), false)
+		}
+		// ---- vertices on the split lines: symmetric shapes whose centre lines carry vertices
 		add("onsplit/diamond", "diamond"+tag, []v2.Vec{{X: 1, Y: 0}, {X: 0, Y: 1}, {X: -1, Y: 0}, {X: 0, Y: -1}}, false)
 		add("onsplit/plus", "plus"+tag, []v2.Vec{{X: 1, Y: -3}, {X: 1, Y: -1}, {X: 3, Y: -1}, {X: 3, Y: 1}, {X: 1, Y: 1}, {X: 1, Y: 3}, {X: -1, Y: 3}, {X: -1, Y: 1}, {X: -3, Y: 1}, {X: -3, Y: -1}, {X: -1, Y: -1}, {X: -1, Y: -3}}, true)
 		add("onsplit/octagon0", "octagon0"+tag, ngon(8, func(int) float64 { return 1 }, 0), false)
@@ -485,8 +498,8 @@ func check(c *Ctx, r *Report) error {
 			return err
 		}
 	}
-	ctree := &Cases{Kind: "tree", Imports: imp, Type: "tcase", Fn: "mismatches_tree", InfoFn: "inexact_tree", PerShard: 6}
-	ceval := &Cases{Kind: "eval", Imports: imp, Type: "ecase", Fn: "mismatches_eval", InfoFn: "inexact_eval", PerShard: 4}
+	ctree := &Cases{Kind: "tree", Imports: imp, Type: "tcase", Fn: "mismatches_tree", InfoFn: "inexact_tree", PerShard: 3}
+	ceval := &Cases{Kind: "eval", Imports: imp, Type: "ecase", Fn: "mismatches_eval", InfoFn: "inexact_eval", PerShard: 3}
 
 	var polys []poly
 	for _, e := range cp.Polygons {
@@ -503,7 +516,7 @@ func check(c *Ctx, r *Report) error {
 
 	gridCap := TierN(c.Tier, 30000, 400000, 120000)
 	nRandom := TierN(c.Tier, 1500, 20000, 6000)
-	coqPts := TierN(c.Tier, 90, 400, 90)
+	coqPts := TierN(c.Tier, 48, 300, 60)
 	pid := 0 // global point id
 	signDis, valDis, certBad := 0, 0, 0
 	famCount := map[string]int{}
@@ -721,9 +734,9 @@ func check(c *Ctx, r *Report) error {
 		for k := 0; k < want && len(all) > 0; k++ {
 			sel = append(sel, all[rng.Intn(len(all))])
 		}
-		qEvery := 3
+		qEvery := 4
 		if len(segs) > 60 {
-			qEvery = 6
+			qEvery = 8
 		}
 		var pterms []string
 		for k, o := range sel {
